@@ -199,6 +199,10 @@ func (x *Exec) stdlib(s *State, in *ssa.Call, f *ssa.Function, args []Val) Val {
 			}
 			s.assume(Implies(Eq(as[0], BVLit(0, 32)), Not(r)))
 		}
+		if (name == "unicode.IsDigit" || name == "unicode.Is") && len(as) >= 1 && as[len(as)-1].Sort == SBV32 {
+			// fact of the library: NUL is in none of the tables the package asks about (digits, letters, name characters)
+			s.assume(Implies(Eq(as[len(as)-1], BVLit(0, 32)), Not(r)))
+		}
 		return scalar(r)
 	case "unicode/utf8.DecodeRuneInString":
 		r := x.freshVal(s, "rune", types.Typ[types.Rune])
